@@ -243,7 +243,10 @@ def run_checkgcd(desc):
     if g != 1:
       if not e[0] or not k.test_info.weak:
         raise Violation('checkgcd:missed', index=i, n=n, gcd=g, ns=ns)
-      if fs != {g, n // g}:
+      # the gcd and its cofactor are recorded; when gcd == n the check may add a proper
+      # divisor found with an individual partner (every recorded value must divide n)
+      if fs is None or not {g, n // g} <= fs or any(f < 1 or n % f for f in fs) or (
+          g != n and fs != {g, n // g}):
         raise Violation('checkgcd:record', index=i, n=n, gcd=g, got=sorted(fs or []))
     else:
       if e[0] or k.test_info.weak or fs is not None:
